@@ -7,6 +7,7 @@ model's order on the dumped graph  +  the multi-process run: every multi-alterna
 exported-name list and lint result in several fresh interpreters with different PYTHONHASHSEED and
 different amounts of prior allocation must be identical (direct evaluator, also the search engine).
 """
+import ast
 import json
 import os
 from concurrent.futures import ThreadPoolExecutor
@@ -99,9 +100,93 @@ for job in jobs:
                 res.append([p, [n for n in names if not n.startswith('__')][:60]])
         except Exception as e:
             res.append('EXC:' + type(e).__name__)
-    out.append(res)
+    shared = []
+    for seq in job.get('shared', []):          # the same requests on ONE long-lived Project
+        proj = Project(job['roots'])
+        row = []
+        for i in seq:
+            kind, src, pos, fn = job['requests'][i]
+            try:
+                if kind == 'location':
+                    r = location(proj, src, tuple(pos), fn)
+                    row.append([[[list(d['loc']), d['file']] for d in x] if isinstance(x, list) else [list(x['loc']), x['file']] for x in r])
+                else:
+                    p, names = assist(proj, src, tuple(pos), fn)
+                    row.append([p, [n for n in names if not n.startswith('__')][:60]])
+            except Exception as e:
+                row.append('EXC:' + type(e).__name__)
+        shared.append(row)
+    out.append({'res': res, 'shared': shared})
 json.dump(out, sys.stdout)
 '''
+
+
+def gen_case_scenario(rng, base, idx):
+    """proposals that differ only in case (DEBUG / Debug / debug) from set-backed sources: module
+    members, attributes of a multi-alternative value, package + submodule names.  Expected: the
+    plain sorted order, in every process."""
+    root = os.path.join(base, 'case%d' % idx)
+    os.makedirs(os.path.join(root, 'casedpkg'))
+    stems = rng.sample(['debug', 'alpha', 'mode', 'item', 'path'], 3)
+    variants = []
+    for st in stems:
+        variants += [st, st.upper(), st.capitalize()]
+    rng.shuffle(variants)
+    open(os.path.join(root, 'cased.py'), 'w').write(''.join('%s = %d\n' % (v, i) for i, v in enumerate(variants)))
+    open(os.path.join(root, 'casedpkg', '__init__.py'), 'w').write('%s = 1\n%s = 2\n' % (stems[0].upper(), stems[0]))
+    for v in (stems[1], stems[1].upper(), stems[1].capitalize()):
+        open(os.path.join(root, 'casedpkg', v + '.py'), 'w').write('x = 1\n')
+    cls = ('class K1(object):\n' + ''.join('    %s = 1\n' % v for v in variants[:5]) +
+           'class K2(object):\n' + ''.join('    %s = 2\n' % v for v in variants[4:]) +
+           'if c:\n    obj = K1()\nelse:\n    obj = K2()\nobj.\n')
+    fn = os.path.join(root, 'main.py')
+    reqs = [['assist', 'from cased import \n', [1, 18], fn],
+            ['assist', 'import cased\ncased.\n', [2, 6], fn],
+            ['assist', 'from casedpkg import \n', [1, 21], fn],
+            ['assist', 'import casedpkg.\n', [1, 16], fn],
+            ['assist', cls, [cls.count('\n'), 4], fn],
+            ['assist', ''.join('%s = 1\n' % v for v in variants) + '\n', [len(variants) + 1, 0], fn]]
+    return [root], reqs, ['sorted'] * len(reqs)
+
+
+def gen_starcycle_scenario(rng, base, idx):
+    """two project modules star-importing each other: the member list of each on a fresh Project,
+    after the other one was asked about, and repeated, must be the same list"""
+    root = os.path.join(base, 'cyc%d' % idx)
+    os.makedirs(root)
+    a, b = rng.sample(['cyca', 'cycb', 'ringx', 'ringy'], 2)
+    open(os.path.join(root, a + '.py'), 'w').write('from %s import *\n%s_own = 1\nshared_%d = 1\n' % (b, a, idx))
+    open(os.path.join(root, b + '.py'), 'w').write('from %s import *\n%s_own = 2\n' % (a, b))
+    fn = os.path.join(root, 'main.py')
+    reqs = [['assist', 'import %s\n%s.\n' % (a, a), [2, len(a) + 1], fn],
+            ['assist', 'import %s\n%s.\n' % (b, b), [2, len(b) + 1], fn],
+            ['assist', 'from %s import \n' % a, [1, len(a) + 13], fn],
+            ['location', 'from %s import %s_own\n%s_own\n' % (a, b, b), [2, len(b) + 4], fn]]
+    shared = [[0, 1, 0, 1], [1, 0, 1, 0], [2, 1, 2, 0], [1, 3, 0, 3], [3, 3, 0, 0]]
+    return [root], reqs, [None] * len(reqs), shared
+
+
+def gen_multivalue_order_scenario(rng, root, idx):
+    """an instance attribute assigned in a try body, its handlers, its else clause and another
+    method: go-to-definition on a use lists the assignments in source order (positions from ast)"""
+    attr = rng.choice(['conn', 'state', 'handle'])
+    nh = rng.randint(1, 3)
+    lines = ['class Client%d(object):' % idx, '    def connect(self, addr):', '        try:',
+             '            self.%s = open_it(addr)' % attr]
+    for j in range(nh):
+        lines += ['        except E%d:' % j, '            self.%s = %d' % (attr, j)]
+    if rng.random() < 0.8:
+        lines += ['        else:', '            self.%s = wrap(self.%s)' % (attr, attr)]
+    if rng.random() < 0.5:
+        lines += ['        finally:', '            self.%s = None' % attr]
+    lines += ['        return self.%s' % attr, '    def close(self):', '        self.%s = None' % attr]
+    src = '\n'.join(lines) + '\n'
+    use = lines.index('        return self.%s' % attr) + 1
+    tree = ast.parse(src)
+    exp = sorted([n.lineno, n.col_offset] for n in ast.walk(tree)
+                 if isinstance(n, ast.Attribute) and n.attr == attr and isinstance(n.ctx, ast.Store))
+    fn = os.path.join(root, 'client%d.py' % idx)
+    return [['location', src, [use, len(lines[use - 1])], fn]], [('locs', exp)]
 
 
 def gen_attr_scenario(rng, root, idx):
@@ -221,6 +306,23 @@ def project_scenarios(ctx, nproc):
         jobs.append({'roots': roots, 'requests': reqs})
         meta.append(('roots', exps))
         ctx.histogram('scenario', 'roots')
+    for i in range(ctx.pick(6, 60)):
+        roots, reqs, exps = gen_case_scenario(ctx.rng, base, i)
+        jobs.append({'roots': roots, 'requests': reqs})
+        meta.append(('case', exps))
+        ctx.histogram('scenario', 'case')
+    for i in range(ctx.pick(6, 60)):
+        roots, reqs, exps, shared = gen_starcycle_scenario(ctx.rng, base, i)
+        jobs.append({'roots': roots, 'requests': reqs, 'shared': shared})
+        meta.append(('starcycle', exps))
+        ctx.histogram('scenario', 'starcycle')
+    for i in range(ctx.pick(10, 100)):
+        root = os.path.join(base, 'mv%d' % i)
+        os.makedirs(root)
+        reqs, exps = gen_multivalue_order_scenario(ctx.rng, root, i)
+        jobs.append({'roots': [root], 'requests': reqs})
+        meta.append(('multivalue-order', exps))
+        ctx.histogram('scenario', 'multivalue-order')
     path = os.path.join(ctx.scratch, 'scen_jobs.json')
     json.dump(jobs, open(path, 'w'))
     wpath = os.path.join(ctx.scratch, 'c17_worker2.py')
@@ -244,7 +346,18 @@ def project_scenarios(ctx, nproc):
         if len(set(outs)) > 1:
             what = 'answers differ between fresh processes: %s' % sorted(set(outs))[:2]
         else:
-            res = results[0][j]
+            res = results[0][j]['res']
+            # the same requests on one long-lived Project: every answer = the fresh-Project answer
+            fresh_by_req, ri0 = [], 0
+            for (rk, _s, _p, _f) in job['requests']:
+                fresh_by_req.append(res[ri0])
+                ri0 += 2 if rk == 'location' else 1
+            for seq, row in zip(job.get('shared', []), results[0][j]['shared']):
+                for pos, (i, a) in enumerate(zip(seq, row)):
+                    if a != fresh_by_req[i]:
+                        what = ('request %d answered %s after %d earlier requests on the same Project, %s on a fresh one'
+                                % (i, str(a)[:120], pos, str(fresh_by_req[i])[:120]))
+                        break
             ri = 0
             for (rk, src, pos, fn), exp in zip(job['requests'], exps):
                 r = res[ri]
@@ -252,7 +365,11 @@ def project_scenarios(ctx, nproc):
                     if res[ri + 1] is not True:
                         what = 'two identical location() calls on one Project differ'
                     ri += 2
-                    if exp is not None and not isinstance(r, str):
+                    if isinstance(exp, tuple) and exp[0] == 'locs' and not isinstance(r, str):
+                        got = [d[0] for x in r for d in (x if x and isinstance(x[0], list) and isinstance(x[0][0], list) else [x])]
+                        if got != exp[1]:
+                            what = 'definitions are not listed in source order: got %s, ast says %s' % (got, exp[1])
+                    elif exp is not None and not isinstance(r, str):
                         first = r[0] if r else None
                         if isinstance(first, list) and first and isinstance(first[0], list) and isinstance(first[0][0], list):
                             first = first[0]
@@ -261,6 +378,8 @@ def project_scenarios(ctx, nproc):
                             what = 'location() is not the first alternative in source order / the first root: got %s expected %s' % (got, exp)
                 else:
                     ri += 1
+                    if exp == 'sorted' and not isinstance(r, str) and r[1] != sorted(r[1]):
+                        what = 'proposals are not in sorted order: %s' % (r[1][:12],)
         if what:
             nbad += 1
             if nbad <= 8:
